@@ -189,6 +189,8 @@ def c06(sc, io):
             if len(fr) < len(old):
                 continue
             new = [f for f in fr[len(old):] if f[0] == T and f[1] == limit]
+            if o["persist"] == "MARKET_ON_CLOSE" and upd.get("bsp_rec"):
+                new = []          # conversion at the starting price (which may coincide with the limit): not passive matching
             el = {p: v for p, v in inc.get(sel, {}).items() if (side == "BACK" and p >= limit) or (side == "LAY" and p <= limit)}
             if key in arrival and arrival[key][0] is not None and u >= arrival[key][0]:
                 cum_elig[key] += sum(el.values())
@@ -197,7 +199,7 @@ def c06(sc, io):
                 passive[key][0] += tot; passive[key][1] += len(new)
                 if o["status"] == "Pending" and o["placed"] is None:
                     res.append(("C06-arrival", "order %s was filled passively before it was acknowledged" % o["o"], {"order": o["o"], "pt": T}))
-                grp = (owner.get(o["o"], o.get("strategy", 0)) if iso else -1, sel)
+                grp = (o.get("strategy", owner.get(o["o"], 0)) if iso else -1, sel)
                 new_by_group.setdefault(grp, []).append((o["o"], tot, len(new)))
                 g = elig_by_group.setdefault(grp, {})
                 for p, v in el.items():
